@@ -44,11 +44,12 @@ const (
 // the total read timeout configured when the script contains a "timer fired" step, and how long
 // after its expiry the blocked Read returns
 const (
-	clntTimerT       = 400 * time.Millisecond
-	clntTimerMargin  = 200 * time.Millisecond
-	clntSerialSleep  = 30 * time.Millisecond
-	clntCtxDeadline0 = 200 * time.Millisecond // the caller's own deadline (doubled on every retry)
-	clntCtxMargin    = 40 * time.Millisecond
+	clntTimerT           = 400 * time.Millisecond
+	clntTimerMargin      = 200 * time.Millisecond
+	clntSerialSleep      = 30 * time.Millisecond
+	clntCtxDeadline0     = 200 * time.Millisecond // the caller's own deadline (doubled on every retry)
+	clntCtxMargin        = 40 * time.Millisecond
+	clntShortReadTimeout = 20 * time.Millisecond
 )
 
 type clntStep struct {
@@ -232,6 +233,7 @@ type clntTransport struct {
 	ctx       context.Context
 	ctxEnd    time.Time // the caller's deadline (scripts with a ctx step of kind 2)
 	blocked   bool      // the read that blocks past the timer / the caller's deadline has been reached
+	firstRead time.Time // when the first Read of the call began
 	closed    bool      // Close has been called: SetWriteDeadline / Write are refused
 	serial    bool
 }
@@ -249,6 +251,9 @@ func (t *clntTransport) Write(p []byte) (int, error) {
 }
 
 func (t *clntTransport) Read(p []byte) (int, error) {
+	if t.firstRead.IsZero() {
+		t.firstRead = time.Now()
+	}
 	if t.pos >= len(t.sc.steps) {
 		// the script is over and the client still reads: end the call
 		t.exhausted = true
@@ -461,6 +466,11 @@ type clntClient struct {
 var clntCtors = [3]int{4, 4, 3}
 
 func clntNewClient(kind int, port, flusher, hooks bool, timeout time.Duration, ctor, hookKind int) *clntClient {
+	if kind == 2 && ctor == 3 {
+		// a read timeout BELOW the 30 ms the serial client sleeps after the write (scripts without timer
+		// steps only): the timer must start when the read loop starts
+		timeout = clntShortReadTimeout
+	}
 	cc := &clntClient{kind: kind, rec: &clntRec{}, timeout: timeout}
 	cc.tr = &clntTransport{rec: cc.rec, cancel: func() {}, serial: kind == 2}
 	if kind == 2 {
@@ -657,6 +667,7 @@ func (cc *clntClient) do(rq *clntRq, sc clntScript, try int) ([]V, bool) {
 	cc.rec.ev = nil
 	cc.rec.mu.Unlock()
 	tr.sc, tr.pos, tr.exhausted, tr.late, tr.blocked = sc, 0, false, false, false
+	tr.firstRead = time.Time{}
 	callStart := time.Now()
 	// a script whose timer / caller deadline is due at a later step: if the call takes a good part
 	// of that time without reaching the read that is to block, the clock may have decided instead
@@ -708,6 +719,19 @@ func (cc *clntClient) do(rq *clntRq, sc clntScript, try int) ([]V, bool) {
 	}
 	if budget > 0 && !tr.blocked && time.Since(callStart) > budget {
 		tr.late = true
+	}
+	if cc.timeout == clntShortReadTimeout {
+		// the real (short) timer must not decide: the read loop, from its first Read on, has to be much
+		// quicker than the timeout; and a call that never read must have ended right after the 30 ms
+		// sleep (a stall between the sleep and the first select would look the same as a timer
+		// started too early, except that it ends later)
+		end := time.Now()
+		if !tr.firstRead.IsZero() && end.Sub(tr.firstRead) > clntShortReadTimeout/2 {
+			tr.late = true
+		}
+		if tr.firstRead.IsZero() && end.Sub(tr.t0) > clntSerialSleep+clntShortReadTimeout*3/4 {
+			tr.late = true
+		}
 	}
 	if tr.exhausted {
 		return []V{L(I(99)), L()}, tr.late
